@@ -4,6 +4,9 @@ import VelaVerif.Lemmas.PassPackingShape2
 import VelaVerif.Lemmas.PassSem
 import VelaVerif.Lemmas.PassPackingFinal
 import VelaVerif.Lemmas.PassPackingSpec
+import VelaVerif.Lemmas.PassPackingReorder
+import VelaVerif.Lemmas.PassPackingFuel
+import VelaVerif.Lemmas.PassPackingFuelDfs
 /-!
 # C01 / C16 / C11 — pass packing (`pass_packing.pack_into_passes`)
 
@@ -117,6 +120,36 @@ theorem pass_shape_all (G : Graph) (ps : List Pass) (hwf : WF G) (hbt : MainHasB
       (p.isStartup = true → ∀ o ∈ p.ops, startupInitOps.contains (G.op o).type = true) := by
   obtain ⟨rk, hW⟩ := wf_wfu hwf
   exact packDfs_shape hW hbt h
+
+/-- the model's own failure mode does not occur (1): the walk of `build_pass` ends within its fuel, for ANY graph and start list -/
+theorem walk_never_out_of_fuel (R : Rules) (G : Graph) (start : List Nat) :
+    (walkRun R G (walkFuel G start.length) (walkStart start)).fuelOut = false := walk_fuel_ok R G start
+
+/-- (2) the traversal from the graph outputs ends within its fuel, for every well-formed graph: (a) and (b) are therefore
+    statements about everything but the cases in which the code itself raises (assertions, IndexError) -/
+theorem traversal_never_out_of_fuel (G : Graph) (hwf : WF G) : (dfsMain Rules.current G).fuelOut = false := by
+  obtain ⟨rk, hW⟩ := wf_wfu hwf
+  exact dfsMain_fuel_ok hW
+
+/-! ### the final list (`sg.passes` after the CPU passes are regrouped) -/
+
+/-- **final_partition.** The regrouping is a permutation: the final pass list is a partition of the operators as well. -/
+theorem final_partition (G : Graph) (final : List Pass) (hwf : WF G) (h : packIntoPasses Rules.current G = .ok final) :
+    Partition G (final.map toSpec) := by
+  obtain ⟨ps, order, hps, hord, _, rfl⟩ := packIntoPasses_ok h
+  exact partition_of_perm G ps _ (final_flat_perm ps order (reorder_perm G ps order hord)) (packing_partitions_ops G ps hwf hps)
+
+/-- **final_links** (by construction: the model makes the two assertions of `build_pass_links`): in the final order, the pass that
+    holds the producer of an input tensor of a pass comes earlier and lists the tensor among its outputs. Not proved: that the
+    regrouping never trips these assertions (it can: see design.d/PassPacking.md, dynamic weights). -/
+theorem final_links (G : Graph) (final : List Pass) (h : packIntoPasses Rules.current G = .ok final) :
+    ∃ (ps : List Pass) (order : List Nat), packDfs Rules.current G = .ok ps ∧ final = order.map (fun i => ps.getD i default) ∧
+      order.Perm (List.range ps.length) ∧
+      ∀ pi ∈ order, ∀ t ∈ (ps.getD pi default).inputs, ∀ o ∈ (G.tensor t).ops,
+        ∃ pj, ps.findIdx? (fun p => p.ops.contains o) = some pj ∧ order.idxOf pj < order.idxOf pi ∧
+          (ps.getD pj default).outputs.contains t = true := by
+  obtain ⟨ps, order, hps, hord, hl, rfl⟩ := packIntoPasses_ok h
+  exact ⟨ps, order, hps, rfl, reorder_perm G ps order hord, linkProblems_nil G ps order hl⟩
 
 /-! ## (c) the shape of a pass -/
 
